@@ -36,6 +36,7 @@ type Str struct {
 	C      string
 	Sym    []*Term // non-nil => authoritative
 	Poison bool    // content depends on a symbolic value that could not be rendered (only legal as an opaque message)
+	Secret bool    // rendered from a value that depends on a secret input (fmt verbs lose the dependence otherwise)
 }
 
 func StrC(s string) Str { return Str{C: s} }
